@@ -63,6 +63,11 @@ def check(model: Model, rep: Report, tier: str):
         h8(model, rep, cg)
     with rep.isolated():
         h10(model, rep)
+    from .c01 import r7 as _r7
+    from .common import share_rule as _share7
+    with rep.isolated():
+        _share7(rep, model, _r7, "C03.H11", "a listing does not change what is listed: decomposed_operations hands the block's relation to a head BEFORE that head is decomposed "
+                "(= C01.R7) -- otherwise the first listing reports other times than the second")
     from .c04 import duration_rule
     with rep.isolated():
         share_rule(rep, model, duration_rule, "C03.H9", "the duration of a block is the span of its operations whatever frame their times are reported in: listing a circuit hands "
@@ -94,18 +99,8 @@ def unique_identifier(model: Model, C: ClassInfo) -> Tuple[bool, str]:
         if post is None:
             why = "no __post_init__ increments the counter"
             continue
-        incs = [st for st in post.node.body if isinstance(st, ast.AugAssign) and isinstance(st.op, ast.Add)
-                and ast.unparse(st.target) == f"{cname}.{counter}" and isinstance(st.value, ast.Constant)
-                and isinstance(st.value.value, int) and st.value.value > 0]
-        tgt_txt = f"{cname}.{counter}"
-        for st in post.node.body:
-            # ``Cls._n = Cls._n + 1`` / ``Cls._n = 1 + Cls._n``
-            if isinstance(st, ast.Assign) and len(st.targets) == 1 and ast.unparse(st.targets[0]) == tgt_txt and isinstance(st.value, ast.BinOp) and isinstance(st.value.op, ast.Add):
-                a_, b_ = st.value.left, st.value.right
-                for x_, y_ in ((a_, b_), (b_, a_)):
-                    if ast.unparse(x_) == tgt_txt and isinstance(y_, ast.Constant) and isinstance(y_.value, int) and y_.value > 0:
-                        incs.append(st)
-        if len(incs) == 1:
+        from .common import counter_incremented
+        if counter_incremented(model, post, cname, counter):
             return True, n
         why = f"{post.qualname} does not increment {cname}.{counter} unconditionally"
     return False, why
@@ -742,6 +737,12 @@ def clears_after_or_neutral(model: Model, writer: FunctionInfo, node: ast.AST, m
         if st == "dirty":
             return False, f"no {memo.qualname}.cache_clear() after it on the path [{show(p.cond)}]"
     if seen[0] == 0:
+        # the statement sits in a function defined inside the writer (a local generator / callback that runs when its result is consumed): its place on the
+        # writer's paths is not modelled -- no verdict
+        for d_ in ast.walk(writer.node):
+            if isinstance(d_, (ast.FunctionDef, ast.Lambda)) and d_ is not writer.node and any(x_ is node for x_ in ast.walk(d_)):
+                raise AnalysisError(f"{writer.qualname}: the write `{norm_stmt(node)[:60]}` happens inside the nested function "
+                                    f"'{getattr(d_, 'name', '<lambda>')}' (runs when its result is consumed): whether the memo is cleared after it is not read")
         return False, "the statement was not found on any analysed path"
     return True, ""
 
